@@ -395,56 +395,65 @@ theorem lookupX_mem {c : Cache} {p sub : Int} {e : Entry} (h : lookupX c p sub =
   exact List.mem_of_find?_eq_some h
 
 /-- a start position given with an exact sub-page number is where the walk starts -/
-theorem startSub_exact (c : Cache) (p sub : Int) (hs : sub ≠ ANY_SUBNO) : startSub c p sub = sub := by
-  unfold startSub startSubOf
-  cases hl : lookup c p sub with
-  | none => simp only; rw [if_neg hs]
-  | some e =>
-    simp only
-    unfold lookup at hl
-    by_cases hv : validPgno p = true
-    · simp only [hv, if_true] at hl
-      have := List.find?_some hl
-      simpa [pred, hs] using this
-    · simp [hv] at hl
+theorem startSub_exact (sh : Shape) (c : Cache) (p sub : Int) (hs : sh.startExact = true ∨ sub ≠ ANY_SUBNO) :
+    startSub sh c p sub = sub := by
+  cases hse : sh.startExact with
+  | true => exact startSub_repaired sh hse c p sub
+  | false =>
+    have hs' : sub ≠ ANY_SUBNO := by
+      rcases hs with h | h
+      · rw [hse] at h; cases h
+      · exact h
+    unfold startSub startSubS lookupS startSubOf
+    simp only [hse, Bool.false_eq_true, if_false]
+    cases hl : lookup c p sub with
+    | none => simp only; rw [if_neg hs']
+    | some e =>
+      simp only
+      unfold lookup at hl
+      by_cases hv : validPgno p = true
+      · simp only [hv, if_true] at hl
+        have := List.find?_some hl
+        simpa [pred, hs'] using this
+      · simp [hv] at hl
 
 /-- a fresh forward pass: state after `prepare` -/
-theorem prepare_fresh_fwd {s : SearchSt} {d : Int} (hd : d > 0) (hfresh : s.dir = 0) :
-    (prepare s d).startPgno = s.stopPgno0 ∧ (prepare s d).startSubno = s.stopSubno0 ∧
-    (prepare s d).stopPgno0 = s.stopPgno0 ∧ (prepare s d).stopSubno0 = s.stopSubno0 ∧
-    (prepare s d).row0 = 1 ∧ (prepare s d).col0 = 0 := by
+theorem prepare_fresh_fwd (sh : Shape) {s : SearchSt} {d : Int} (hd : d > 0) (hfresh : s.dir = 0) :
+    (prepare sh s d).startPgno = s.stopPgno0 ∧ (prepare sh s d).startSubno = s.stopSubno0 ∧
+    (prepare sh s d).stopPgno0 = s.stopPgno0 ∧ (prepare sh s d).stopSubno0 = s.stopSubno0 ∧
+    (prepare sh s d).row0 = 1 ∧ (prepare sh s d).col0 = 0 := by
   unfold prepare dirOf
   simp [hd, hfresh, FIRST_ROW]
 
-theorem searchNext_not_found_fresh_fwd (exec : Exec) (c : Cache) (s : SearchSt) (d : Int) (hd : d > 0)
-    (hfresh : s.dir = 0) (hne : c.nCached ≠ 0) (hp : PgOk s.stopPgno0) (hok : StartOk c s.stopPgno0)
-    (h : (searchNext exec walkFuel c s d).res = .ret SEARCH_NOT_FOUND) :
-    ∀ x ∈ walkPositions c s.stopPgno0 s.stopSubno0 1,
+theorem searchNext_not_found_fresh_fwd (sh : Shape) (exec : Exec) (c : Cache) (s : SearchSt) (d : Int) (hd : d > 0)
+    (hfresh : s.dir = 0) (hne : c.nCached ≠ 0) (hp : PgOk s.stopPgno0) (hok : StartOk sh c s.stopPgno0)
+    (h : (searchNext sh exec walkFuel c s d).res = .ret SEARCH_NOT_FOUND) :
+    ∀ x ∈ walkPositions sh c s.stopPgno0 s.stopSubno0 1,
       (x.2.2 = false ∨ key x.1 x.2.1 < key s.stopPgno0 s.stopSubno0) →
       ∀ e, lookupX c x.1 x.2.1 = some e → e.func = FUNC_LOP → exec {} (hayFwd e.text (-1) 0).1 = none := by
-  obtain ⟨f1, f2, f3, f4, f5, f6⟩ := prepare_fresh_fwd (s := s) hd hfresh
-  have hp' : PgOk (prepare s d).startPgno := by rw [f1]; exact hp
-  have hok' : StartOk c (prepare s d).startPgno := by rw [f1]; exact hok
-  rw [searchNext_factors exec c s d hne hp' hok'] at h
+  obtain ⟨f1, f2, f3, f4, f5, f6⟩ := prepare_fresh_fwd sh (s := s) hd hfresh
+  have hp' : PgOk (prepare sh s d).startPgno := by rw [f1]; exact hp
+  have hok' : StartOk sh c (prepare sh s d).startPgno := by rw [f1]; exact hok
+  rw [searchNext_factors sh exec c s d hne hp' hok'] at h
   have hr := statusOf_not_found h
   have hdir : dirOf d = 1 := by unfold dirOf; simp [hd]
   have hcb : callbackOf exec d = pageFwd exec := by unfold callbackOf; simp [hd]
   rw [hdir, hcb, f1, f2] at hr
-  generalize hrp : runPos (pageFwd exec) c (walkPositions c s.stopPgno0 s.stopSubno0 1) (prepare s d) = rp at hr
+  generalize hrp : runPos (pageFwd exec) c (walkPositions sh c s.stopPgno0 s.stopSubno0 1) (prepare sh s d) = rp at hr
   obtain ⟨r, sf⟩ := rp
   simp only at hr; subst hr
   intro x hx hwin e he hlop
   obtain ⟨pre, post, hL⟩ := List.append_of_mem hx
   -- sortedness of the positions
-  obtain ⟨o1, _, o3⟩ := (show (walkPositions c s.stopPgno0 s.stopSubno0 1).Pairwise LtF ∧ True ∧
-      ∀ y ∈ (walkPositions c s.stopPgno0 s.stopSubno0 1).tail, PgOk y.1 ∧ Landed (c.stat y.1) y.2.1 from by
+  obtain ⟨o1, _, o3⟩ := (show (walkPositions sh c s.stopPgno0 s.stopSubno0 1).Pairwise LtF ∧ True ∧
+      ∀ y ∈ (walkPositions sh c s.stopPgno0 s.stopSubno0 1).tail, PgOk y.1 ∧ Landed (c.stat y.1) y.2.1 from by
     unfold walkPositions
-    obtain ⟨g1, g2⟩ := positions_sorted_fwd c walkFuel s.stopPgno0 (startSub c s.stopPgno0 s.stopSubno0) false hp
+    obtain ⟨g1, g2⟩ := positions_sorted_fwd c walkFuel s.stopPgno0 (startSub sh c s.stopPgno0 s.stopSubno0) false hp
     refine ⟨?_, trivial, ?_⟩
     · rw [List.pairwise_cons]; exact ⟨fun y hy => (g1 y hy).1, g2⟩
     · intro y hy; simp only [List.tail_cons] at hy; exact (g1 y hy).2)
   -- a wrapped position lies in the tail, hence at a sub-page number 0 .. 0xFFFF of a valid page number
-  have hwrapped : ∀ y ∈ walkPositions c s.stopPgno0 s.stopSubno0 1, y.2.2 = true →
+  have hwrapped : ∀ y ∈ walkPositions sh c s.stopPgno0 s.stopSubno0 1, y.2.2 = true →
       PgOk y.1 ∧ Landed (c.stat y.1) y.2.1 := by
     intro y hy hw
     unfold walkPositions at hy
@@ -452,8 +461,8 @@ theorem searchNext_not_found_fresh_fwd (exec : Exec) (c : Cache) (s : SearchSt) 
     · simp at hw
     · exact o3 y (by unfold walkPositions; simpa using hy)
   -- which positions stop the pass
-  have hstop : ∀ y ∈ walkPositions c s.stopPgno0 s.stopSubno0 1,
-      (y.2.2 = false ∨ key y.1 y.2.1 < key s.stopPgno0 s.stopSubno0) → ¬ StopsF c (prepare s d) y := by
+  have hstop : ∀ y ∈ walkPositions sh c s.stopPgno0 s.stopSubno0 1,
+      (y.2.2 = false ∨ key y.1 y.2.1 < key s.stopPgno0 s.stopSubno0) → ¬ StopsF c (prepare sh s d) y := by
     intro y hy hyw ⟨ey, hey, hst⟩
     unfold stopFwd at hst
     rw [f1, f2, f3, f4] at hst
@@ -466,9 +475,9 @@ theorem searchNext_not_found_fresh_fwd (exec : Exec) (c : Cache) (s : SearchSt) 
       rw [hpn, hsub] at hst
       omega
   have hxns := hstop x hx hwin
-  have hprens : ∀ y ∈ pre, ¬ StopsF c (prepare s d) y := by
+  have hprens : ∀ y ∈ pre, ¬ StopsF c (prepare sh s d) y := by
     intro y hy
-    have hyL : y ∈ walkPositions c s.stopPgno0 s.stopSubno0 1 := by rw [hL]; exact List.mem_append_left _ hy
+    have hyL : y ∈ walkPositions sh c s.stopPgno0 s.stopSubno0 1 := by rw [hL]; exact List.mem_append_left _ hy
     apply hstop y hyL
     rw [hL] at o1
     have hlt : LtF y x := (List.pairwise_append.mp o1).2.2 y hy x List.mem_cons_self
@@ -493,8 +502,8 @@ theorem searchNext_not_found_fresh_fwd (exec : Exec) (c : Cache) (s : SearchSt) 
           omega
   have hcode := runPos_minus1 exec c _ _ _ hrp pre x post hL hprens hxns e he
   -- code 0 on a level one page that does not stop the pass: the matcher found nothing in the whole page
-  have hns : stopFwd (prepare s d) x.1.toNat e x.2.2 = false := by
-    cases hsf : stopFwd (prepare s d) x.1.toNat e x.2.2 with
+  have hns : stopFwd (prepare sh s d) x.1.toNat e x.2.2 = false := by
+    cases hsf : stopFwd (prepare sh s d) x.1.toNat e x.2.2 with
     | false => rfl
     | true => exact absurd ⟨e, he, hsf⟩ hxns
   rw [codeFwd_fresh exec f5 f6 _ _ _ hlop hns] at hcode
